@@ -29,13 +29,23 @@ def spaces(ctx):
     code = ["`a`", "`` ` ``", "` a `", "`a", "a`", "``", "` `", "`  a  `", "x `b` y", "`` a", "a ``", "`a  ", "  b`", "# `h`", "- `c`", "> `q`", "```", "a"]
     codes = list(gen.d_line(code, 2)) + list(gen.d_line(code[:9], 3, final_newline=(True,)))
     more = list(gen.d_line(gen.V_CONT + ["+ a", "2) a", ">a", "> > a", "1. a", "10. x", "  # a", "   > b", "    - c", "## h", "a  ", "~~~"], 2))
+    em = list(gen.uniq(gen.d_emph(6)))
+    eml = ["*a*", "**a** b", "_a_ *b", "a*", "*", "* a", "***", "# *h*", "> _q_", "- **l**", "a", "", "__a__b", "*a", "b*", "_ _", "**"]
+    emb = list(gen.d_line(eml, 3, final_newline=(True,)))
+    refs = ["&#35;", "&#x41;", "&#X41;", "&#x0000041;", "&#x000041;", "&#1234567;", "&#12345678;", "&#x;", "&#;", "&#0;", "&#xD800;", "&#x110000;", "&#60;b&#62;", "&#34;",
+            "a &#65; b", "&#42;a&#42;", "*&#65;*", "`&#65;`", "    &#65;", "# &#65;", "- &#65;", "> &#x263A;", "&#65", "&# 65;", "&#x41g;", "&#x00000041;", "&#000065;", "a", ""]
+    refd = list(gen.d_line(refs, 2))
+    if ctx.tier == "quick":
+        return {"V_leaf<=3": gen.sample(leaf, 4000, ctx.seed), "V_cont<=3": gen.sample(cont3, 4000, ctx.seed + 1), "V_cont=4": gen.sample(cont4, 3000, ctx.seed + 2), "V_cont+<=2": more, "code-spans": codes,
+                "emphasis-runs(6)": gen.sample(em, 4000, ctx.seed + 3), "emphasis-in-blocks<=3": gen.sample(emb, 3000, ctx.seed + 4), "numeric-references<=2": refd}
+    return {"V_leaf<=3": leaf, "V_cont<=3": cont3, "V_cont=4": cont4, "V_cont+<=2": more, "code-spans": codes, "emphasis-runs(6)": em, "emphasis-in-blocks<=3": emb, "numeric-references<=2": refd}
     if ctx.tier == "quick":
         return {"V_leaf<=3": gen.sample(leaf, 4000, ctx.seed), "V_cont<=3": gen.sample(cont3, 4000, ctx.seed + 1), "V_cont=4": gen.sample(cont4, 3000, ctx.seed + 2), "V_cont+<=2": more, "code-spans": codes}
     return {"V_leaf<=3": leaf, "V_cont<=3": cont3, "V_cont=4": cont4, "V_cont+<=2": more, "code-spans": codes}
 
 
 def run(ctx):
-    ctx.prove("Props/C03.v", ["Spec/CMBlock.v", "Proofs/CMProofs.v", "Proofs/CMFuel.v", "Extract/Extract.v"])
+    ctx.prove("Props/C03.v", ["Spec/CMBlock.v", "Proofs/CMProofs.v", "Proofs/CMFuel.v", "Proofs/CMInlineProofs.v", "Extract/Extract.v"])
     # ---- (0) the spec model itself: the CommonMark examples inside F, and markdown-it on a sample
     exs = [e for e in cm.spec_examples() if "\t" not in e["markdown"]]
     res = cm.cm_html_many([e["markdown"] for e in exs])
